@@ -736,6 +736,9 @@ static int vf_asan_summary(pid_t pid, char *out, size_t ol) {
     fclose(f); unlink(path);
     return ok;
 }
+/* a child whose exit status is not classified (search/trial runs) may have died in the sanitizer: its report must not stay behind for a later
+   process with the same pid (pid_max is 32768 here: with 16 jobs forking thousands of children per second pids repeat within seconds) */
+static void vf_discard_log(pid_t pid) { const char *pre = getenv("VF_ASAN_LOG"); if (!pre) return; char path[512]; snprintf(path, sizeof path, "%s.%d", pre, (int)pid); unlink(path); }
 /* canonical crash descriptor for signatures: "fault:sig11@pXgstrf_pivotL", "exit:255", "sanitizer:heap-buffer-overflow@pXgstrf_pivotL", "timeout" */
 static void vf_crash_desc(int kind, int code, char *out, size_t ol) {
     char sm[256];
